@@ -717,9 +717,10 @@ def _related(rng, vals):
                 lo, hi = sorted((v[j - 1], v[j + 1]))
                 old = v[j]
                 v[j] = v[j] + (hi - lo) * rng.uniform(-0.2, 0.2) if hi > lo else v[j] * (1 + rng.uniform(-1e-3, 1e-3))
-                if (old > 0) != (v[j] > 0) or (old < 0) != (v[j] < 0):
-                    # a related input keeps the SIGN of what it perturbs (weights, cross-sections, widths stay what they were:
-                    # positive, negative or exactly zero) -- sign conditions are preconditions of many units
+                if (old > 0) != (v[j] > 0) or (old < 0) != (v[j] < 0) or abs(v[j] - old) > 0.5 * abs(old):
+                    # a related input keeps the SIGN and the ORDER OF MAGNITUDE of what it perturbs (weights, cross-sections, widths
+                    # stay positive / negative / exactly zero, and a value of 1e-29 next to one of 1e-6 stays near 1e-29: "slightly
+                    # moved" is relative to the value, not to a neighbour 20 orders of magnitude away)
                     v[j] = old * (1 + rng.uniform(-0.2, 0.2))
     if not keys or rng.random() < 0.3:
         sc = [k for k, v in out.items() if isinstance(v, float)]
